@@ -86,21 +86,21 @@ A_CTOR = 'iterator-adapter loops (Rabin-Karp constructors, Pair::with_ranker, Ap
 K_LEAF = [dict(name='leaf_sse2'), dict(name='leaf_avx2'), dict(name='leaf_sse2_aligned_load'), dict(name='leaf_avx2_aligned_load')]
 K_POP = [dict(name='leaf_count_ones_spec')]
 K_TW_F = [dict(name='bounded_twoway_fwd_n4_h7', bounded=True, bound='needle<=4, haystack<=7, all byte values', tier='thorough', timeout=1500),
-          dict(name='bounded_twoway_fwd_n5_h9', bounded=True, bound='needle<=5, haystack<=9', tier='thorough', timeout=14400)]
+          dict(name='bounded_twoway_fwd_n5_h9', bounded=True, bound='needle<=5, haystack<=9', tier='thorough', timeout=1800)]
 K_TW_R = [dict(name='bounded_twoway_rev_n3_h6', bounded=True, bound='needle<=3, haystack<=6, all byte values', tier='thorough', timeout=1500),
-          dict(name='bounded_twoway_rev_n4_h7', bounded=True, bound='needle<=4, haystack<=7', tier='thorough', timeout=7200),
-          dict(name='bounded_twoway_rev_n5_h9', bounded=True, bound='needle<=5, haystack<=9', tier='thorough', timeout=14400)]
+          dict(name='bounded_twoway_rev_n4_h7', bounded=True, bound='needle<=4, haystack<=7', tier='thorough', timeout=1800),
+          dict(name='bounded_twoway_rev_n5_h9', bounded=True, bound='needle<=5, haystack<=9', tier='thorough', timeout=1800)]
 K_RK_F = [dict(name='bounded_rabinkarp_fwd_n4_h8', bounded=True, bound='needle<=4, haystack<=8', tier='thorough', timeout=1500)]
 K_RK_R = [dict(name='bounded_rabinkarp_rev_n4_h8', bounded=True, bound='needle<=4, haystack<=8', tier='thorough', timeout=1500)]
 K_SO = [dict(name='bounded_shiftor_n4_h8', bounded=True, bound='needle<=4, haystack<=8', tier='thorough', timeout=1500),
         dict(name='bounded_shiftor_unsupported_len', bounded=True, bound='needle<=17', tier='thorough', timeout=900)]
 K_PAIR = [dict(name='bounded_pair_with_ranker_n24', bounded=True, bound='needle<=24, fully symbolic 256-entry ranker', tier='thorough', timeout=1500),
-          dict(name='bounded_pair_default_ranker_long_tail', bounded=True, bound='needle length 254..=260 (253 fixed bytes + 6 symbolic), default ranker', tier='thorough', timeout=3600),
-          dict(name='bounded_pair_with_ranker_long_tail', bounded=True, bound='needle length 250..=260 (252 fixed + 8 symbolic bytes), fully symbolic ranker', tier='thorough', timeout=7200)]
-K_GLUE = [dict(name='bounded_glue_fwd_sse2_n2_h4', bounded=True, bound='needle=2 bytes, haystack<=4, AVX2 stubbed unavailable (fn-pointer pairing of Searcher::new/find on the SSE2 strategy)', tier='thorough', timeout=7200),
-          dict(name='bounded_glue_sse2_n2_h19', bounded=True, bound='needle<=2, haystack<=19, symbolic ranker and PrefilterConfig, AVX2 stubbed off', tier='thorough', timeout=14400)]
+          dict(name='bounded_pair_default_ranker_long_tail', bounded=True, bound='needle length 254..=260 (253 fixed bytes + 6 symbolic), default ranker', tier='thorough', timeout=1800),
+          dict(name='bounded_pair_with_ranker_long_tail', bounded=True, bound='needle length 250..=260 (252 fixed + 8 symbolic bytes), fully symbolic ranker', tier='thorough', timeout=1800)]
+K_GLUE = [dict(name='bounded_glue_fwd_sse2_n2_h4', bounded=True, bound='needle=2 bytes, haystack<=4, AVX2 stubbed unavailable (fn-pointer pairing of Searcher::new/find on the SSE2 strategy)', tier='thorough', timeout=900),
+          dict(name='bounded_glue_sse2_n2_h19', bounded=True, bound='needle<=2, haystack<=19, symbolic ranker and PrefilterConfig, AVX2 stubbed off', tier='thorough', timeout=900)]
 K_GLUE_R = [dict(name='bounded_glue_rev_n3_h6', bounded=True, bound='needle<=3, haystack<=6', tier='thorough', timeout=1500)]
-K_TWPRE = [dict(name='bounded_twoway_prefilter_fwd_n3_h7', bounded=True, bound='needle 2..=3, haystack<=7, Two-Way with the portable prefilter', tier='thorough', timeout=14400)]
+K_TWPRE = [dict(name='bounded_twoway_prefilter_fwd_n3_h7', bounded=True, bound='needle 2..=3, haystack<=7, Two-Way with the portable prefilter', tier='thorough', timeout=900)]
 
 def others(select, mods=None, with32=True):
     """the same selection on the builds for the other targets (text the x86_64 host never compiles) and for 32-bit usize"""
